@@ -29,6 +29,12 @@ pub enum MEdit {
     DeleteElement { coll: String, idx: usize },
     SetClimate { zone: String },
     SetMeta { key: String, value: Value },
+    /// pool variants (not faults): a value replaced, every name changed with ids kept,
+    /// every id changed (consistently) with names kept
+    SetValue { ptr: String, value: Value },
+    ScaleNumber { ptr: String, factor: f64 },
+    RenameAllNames,
+    RemapAllIds,
 }
 
 impl MEdit {
@@ -51,6 +57,9 @@ impl MEdit {
             MEdit::DeleteElement { .. } => "edit.delete_element",
             MEdit::SetClimate { .. } => "edit.set_climate",
             MEdit::SetMeta { .. } => "edit.set_meta",
+            MEdit::SetValue { .. } | MEdit::ScaleNumber { .. } => "variant.value",
+            MEdit::RenameAllNames => "variant.names",
+            MEdit::RemapAllIds => "variant.ids",
         }
     }
     /// pointer with array indices replaced by `*` (stratification / grouping)
@@ -346,6 +355,67 @@ pub fn apply(m: &mut Value, e: &MEdit, serial: u64) -> bool {
             } else {
                 false
             }
+        }
+        MEdit::SetValue { ptr, value } => match m.pointer_mut(ptr) {
+            Some(v) => {
+                *v = value.clone();
+                true
+            }
+            None => false,
+        },
+        MEdit::ScaleNumber { ptr, factor } => match m.pointer_mut(ptr) {
+            Some(v) if v.is_number() => {
+                *v = json!(v.as_f64().unwrap_or(0.0) * factor);
+                true
+            }
+            _ => false,
+        },
+        MEdit::RenameAllNames => {
+            fn walk(v: &mut Value) {
+                match v {
+                    Value::Object(o) => {
+                        if let Some(Value::String(n)) = o.get_mut("name") {
+                            *n = format!("{} (copia)", n);
+                        }
+                        for (_, c) in o.iter_mut() {
+                            walk(c);
+                        }
+                    }
+                    Value::Array(a) => a.iter_mut().for_each(walk),
+                    _ => {}
+                }
+            }
+            // the project name in meta is a name too
+            walk(m);
+            true
+        }
+        MEdit::RemapAllIds => {
+            fn walk(v: &mut Value) {
+                match v {
+                    Value::String(s) if is_uuid(s) && s != NIL => {
+                        let h = format!("{:x}", md5::compute(format!("remap:{}", s).as_bytes()));
+                        *s = format!("{}-{}-{}-{}-{}", &h[0..8], &h[8..12], &h[12..16], &h[16..20], &h[20..32]);
+                    }
+                    Value::Object(o) => {
+                        // overrides are keyed by id
+                        let keys: Vec<String> = o.keys().filter(|k| is_uuid(k)).cloned().collect();
+                        for k in keys {
+                            if let Some(val) = o.remove(&k) {
+                                let h = format!("{:x}", md5::compute(format!("remap:{}", k).as_bytes()));
+                                let nk = format!("{}-{}-{}-{}-{}", &h[0..8], &h[8..12], &h[12..16], &h[16..20], &h[20..32]);
+                                o.insert(nk, val);
+                            }
+                        }
+                        for (_, c) in o.iter_mut() {
+                            walk(c);
+                        }
+                    }
+                    Value::Array(a) => a.iter_mut().for_each(walk),
+                    _ => {}
+                }
+            }
+            walk(m);
+            true
         }
     }
 }
